@@ -48,6 +48,9 @@ type Layer struct {
 	LinkForm int `json:"link_form,omitempty"`
 
 	After int `json:"after,omitempty"` // fault: error delivered after this many items
+	// Gone (fault, tags listed from the start only): instead, the first request is served and every
+	// request to go on after an item is answered NAME_UNKNOWN (the repository was removed meanwhile)
+	Gone bool `json:"gone,omitempty"`
 }
 
 type Script struct {
@@ -172,6 +175,23 @@ func (f faulty) Tags(ctx context.Context, r, s string) ociregistry.Seq[string] {
 }
 func (f faulty) Referrers(ctx context.Context, r string, d ociregistry.Digest, at string) ociregistry.Seq[ociregistry.Descriptor] {
 	return cut(f.Interface.Referrers(ctx, r, d, at), f.after)
+}
+
+// gone lets the first request for a repository's tags through and answers every request that asks to
+// go on after an item with NAME_UNKNOWN: the repository was removed while a client was paging.
+type gone struct {
+	ociregistry.Interface
+	fired *bool
+}
+
+var errGone = fmt.Errorf("the repository has just been removed: %w", ociregistry.ErrNameUnknown)
+
+func (g gone) Tags(ctx context.Context, r, startAfter string) ociregistry.Seq[string] {
+	if startAfter == "" {
+		return g.Interface.Tags(ctx, r, startAfter)
+	}
+	*g.fired = true
+	return ociregistry.ErrorSeq[string](errGone)
 }
 
 var baseManifest = []byte(`{"opaque":"base of the referrers"}`)
@@ -305,6 +325,7 @@ func run(s Script, v *vt.V) {
 		}
 	}()
 	faultBelow, tooLarge := false, false
+	goneFired, hasGone := false, false
 	denied := map[string]bool{}
 	shape := []string{}
 	for i, l := range s.Stack {
@@ -364,6 +385,20 @@ func run(s Script, v *vt.V) {
 				tooLarge = true
 			}
 		case "fault":
+			// (only where the paging happens inside ONE call from the top: a paging client directly above,
+			// no further hop above that - otherwise each page is a listing of its own, taken when the
+			// repository is honestly unknown)
+			pagedAbove := i+1 < len(s.Stack) && s.Stack[i+1].Kind == "http"
+			for _, l2 := range s.Stack[min(i+2, len(s.Stack)):] {
+				if l2.Kind == "http" {
+					pagedAbove = false
+				}
+			}
+			if l.Gone && s.Kind == "tags" && s.Start == "" && pagedAbove {
+				cur = gone{cur, &goneFired}
+				hasGone = true
+				break
+			}
 			cur = faulty{cur, l.After}
 			faultBelow = true
 		}
@@ -537,7 +572,10 @@ func run(s Script, v *vt.V) {
 				return false
 			}
 		}
-		healthy := !faultBelow && !tooLarge && !(repoDenied && s.Kind != "repos")
+		healthy := !faultBelow && !goneFired && !tooLarge && !(repoDenied && s.Kind != "repos")
+		if goneFired {
+			v.Class("repository-gone-while-paging")
+		}
 		if s.CancelAfter > 0 && s.CancelAfter <= len(got) && healthy {
 			// the context was cancelled under the iteration: it may run to completion all the same or end
 			// with an error, but not look complete when it is not
@@ -593,7 +631,7 @@ func run(s Script, v *vt.V) {
 	if s.CancelAfter > 0 {
 		v.Class("cancelled-midway")
 	}
-	if s.Twice && !faultBelow && !tooLarge && s.CancelAfter == 0 {
+	if s.Twice && !faultBelow && !hasGone && !tooLarge && s.CancelAfter == 0 {
 		v.Class("iterated-twice")
 		if !check("second pass", -1) {
 			return
@@ -637,6 +675,35 @@ var tagPool = []string{"0", "1.0", "A", "B-1", "_x", "a", "a.b", "a_b", "b", "la
 
 func genScript(t *rapid.T) Script {
 	var s Script
+	if rapid.IntRange(0, 15).Draw(t, "goneShape") == 0 {
+		// directed shape: tags of a repository that is removed while a client is paging, the client
+		// sitting below list-transforming wrappers
+		page := rapid.SampledFrom([]int{1, 2, 3}).Draw(t, "gonePage")
+		s = Script{Kind: "tags", Stop: rapid.SampledFrom([]int{-1, -1, -1, 1}).Draw(t, "goneStop")}
+		s.Stack = []Layer{{Kind: "fault", Gone: true}, {Kind: "http", Page: page, OmitLink: rapid.Bool().Draw(t, "goneOmitLink")}}
+		unify := false
+		for i := rapid.IntRange(0, 2).Draw(t, "goneAbove"); i > 0; i-- {
+			switch k := rapid.SampledFrom([]string{"unify", "unify", "debug", "select"}).Draw(t, "goneLayer"); {
+			case k == "unify" && !unify:
+				unify = true
+				s.Stack = append(s.Stack, Layer{Kind: "unify", Sequential: rapid.Bool().Draw(t, "goneSequential")})
+			case k == "select":
+				s.Stack = append(s.Stack, Layer{Kind: "select"})
+			default:
+				s.Stack = append(s.Stack, Layer{Kind: "debug"})
+			}
+		}
+		perm := rapid.Permutation(tagPool).Draw(t, "goneItems")
+		n := min(rapid.SampledFrom([]int{page, page + 1, 2 * page, 2*page + 1}).Draw(t, "goneN"), len(perm))
+		s.Items = append([]string{}, perm[:n]...)
+		sort.Strings(s.Items)
+		if unify {
+			m := rapid.IntRange(0, 3).Draw(t, "goneN2")
+			s.Items2 = append([]string{}, perm[len(perm)-m:]...)
+			sort.Strings(s.Items2)
+		}
+		return s
+	}
 	s.Kind = rapid.SampledFrom([]string{"repos", "repos", "tags", "tags", "referrers"}).Draw(t, "kind")
 	pool := namePool
 	if s.Kind == "tags" {
@@ -685,7 +752,7 @@ func genScript(t *rapid.T) Script {
 			s.Stack = append(s.Stack, Layer{Kind: "unify", Sequential: rapid.Bool().Draw(t, "sequential")})
 		case k == "fault" && faults == 0 && rapid.IntRange(0, 2).Draw(t, "reallyFault") == 0:
 			faults++
-			s.Stack = append(s.Stack, Layer{Kind: "fault", After: rapid.IntRange(0, 6).Draw(t, "after")})
+			s.Stack = append(s.Stack, Layer{Kind: "fault", After: rapid.IntRange(0, 6).Draw(t, "after"), Gone: rapid.IntRange(0, 2).Draw(t, "gone") == 0})
 		case k == "select":
 			l := Layer{Kind: "select"}
 			for j := rapid.IntRange(0, 3).Draw(t, "ndeny"); j > 0; j-- {
@@ -770,7 +837,7 @@ func genScript(t *rapid.T) Script {
 var prop = &vt.Prop[Script]{
 	ID:   "C05",
 	Name: "Listings",
-	Rule: "(a third of the servers that send Link headers sit behind a front end that re-spells the header in an equivalent RFC 8288 form: unquoted rel, no space, a further parameter, a relation list containing next, an absolute URL; a sixth of the consumers cancel the listing's context after k items and go on accepting: the iteration then ends with an error or delivers the complete list) repositories / tags / referrers listings over generated contents (sizes {0,1,p-1,p,p+1,2p-1,2p,2p+1,3p+1} for client page size p in {1,2,3,5,default}), through stacks of <= 4 layers drawn from {http (<= 2 hops; MaxListPageSize absent / equal / above / below the client's page; Link on/off), debug, select(deny set), sub(prefix, with siblings px9, px9ey/x, px9-tools, px9.d/x outside it), unify(second member equal / overlapping / disjoint / repository unknown; both policies), fault(error after j items)}; start-after in {absent, an element, between elements, before all, after all, URL metacharacters & = ? % + space # and non-ASCII}; consumer stops after k items for k in {never,0,1,2,3,n,n+1}; optional second iteration of the same Seq; monitors between all layers check that no consumer is invoked after declining or after an error; oracle = independently computed sorted, de-duplicated, filtered, strictly-after list; a healthy stack must deliver exactly it, a stack with a failing layer must end with an error; non-trivial = at least one page boundary or a non-empty start point; distinct = (kind, stack shape, expected length, page size, start, stop class)",
+	Rule: "(an injected fault is an error after k items or, for tags, a repository that is removed while a client is paging: the first request is served, requests to go on are answered NAME_UNKNOWN; a third of the servers that send Link headers sit behind a front end that re-spells the header in an equivalent RFC 8288 form: unquoted rel, no space, a further parameter, a relation list containing next, an absolute URL; a sixth of the consumers cancel the listing's context after k items and go on accepting: the iteration then ends with an error or delivers the complete list) repositories / tags / referrers listings over generated contents (sizes {0,1,p-1,p,p+1,2p-1,2p,2p+1,3p+1} for client page size p in {1,2,3,5,default}), through stacks of <= 4 layers drawn from {http (<= 2 hops; MaxListPageSize absent / equal / above / below the client's page; Link on/off), debug, select(deny set), sub(prefix, with siblings px9, px9ey/x, px9-tools, px9.d/x outside it), unify(second member equal / overlapping / disjoint / repository unknown; both policies), fault(error after j items)}; start-after in {absent, an element, between elements, before all, after all, URL metacharacters & = ? % + space # and non-ASCII}; consumer stops after k items for k in {never,0,1,2,3,n,n+1}; optional second iteration of the same Seq; monitors between all layers check that no consumer is invoked after declining or after an error; oracle = independently computed sorted, de-duplicated, filtered, strictly-after list; a healthy stack must deliver exactly it, a stack with a failing layer must end with an error; non-trivial = at least one page boundary or a non-empty start point; distinct = (kind, stack shape, expected length, page size, start, stop class)",
 	Gen:  genScript,
 	Run:  run,
 }
